@@ -66,8 +66,9 @@ ASSUMPTIONS = [
     'cards carry no TR number (moved surfaces are property C04); hence the '
     'torus branch of convert_torus with a non-coordinate axis is not '
     'modelled (Err EUnmodelled, never reached by the tie)',
-    'the sheet selector of a K card is absent, 0, +1 or -1 (int() of another '
-    'float is not modelled: Err EUnmodelled); t^2 >= 0',
+    'the sheet selector of a K card is absent or of magnitude < 2 (int() '
+    'truncation is modelled there; a larger one is Err EUnmodelled); the '
+    'theorems take it in {absent, 0, +1, -1}; t^2 >= 0',
     'three-point planes: orientation is proved when no tested quantity lies '
     'in the band 0 < |v| <= 1e-14 (the code\'s epsilon); the band is swept '
     'numerically only',
@@ -366,7 +367,8 @@ def gen_malformed(rng):
     elif fault == 'sheet':
         mn, prm = gen_card(rng, rng.choice(['kx1', 'ky1', 'kz1', 'k/x1',
                                             'k/y1', 'k/z1']))
-        prm[-1] = rng.choice([2.0, -2.0, 0.5, -0.0, 3.0])
+        prm[-1] = rng.choice([2.0, -2.0, 0.5, -0.0, 3.0, 1.5, -1.25, -0.5,
+                               1.999, -1.0, 1.0])
     return mn, prm, fault
 
 
@@ -440,9 +442,9 @@ def coq_mcnp_out(out):
 
 def model_skips(mn, prm, coll_out):
     '''Inputs on which the model answers EUnmodelled by design: a sheet
-    selector other than -1, 0, +1.'''
+    selector of magnitude >= 2 (|int(nappe)| >= 2).'''
     if coll_out[0] == 'ok':
-        return any(abs(side) != 1 for _, _, side in coll_out[1])
+        return any(abs(side) > 1 for _, _, side in coll_out[1])
     return False
 
 
